@@ -5,7 +5,7 @@
       sets : result sets terminated by ';', each  time:step:tables   (cell '-' = not assigned)
       seq  : ops terminated by ','   F L N P H I<int> T<int> S<int>
     Result: observations separated by ';' -- first the state after opening, then per
-    sequence the ','-separated observations after every op:  outcome/index/time/step/tables *)
+    sequence the blank-separated observations after every op:  outcome/index/time/step/tables *)
 From Coq Require Import Ascii String List Bool ZArith NArith.
 From PTBase Require Import Exn PyStr PyNum PyVal Wire.
 From P Require Import ListingNav.
@@ -51,7 +51,7 @@ Definition run_case (line : str) : str :=
         | _ =>
           let s0 := open L in
           join [";"] (show_obs (ONone, s0) ::
-                      map (fun q => join [","] (map show_obs (trace round53 L s0 (map parse_op (split_term "," q))))) seqs)
+                      map (fun q => join [" "] (map show_obs (trace round53 L s0 (map parse_op (split_term "," q))))) seqs)
         end
       else s2l "BADCASE"
   | _ => s2l "BADCASE"
